@@ -30,12 +30,14 @@ Definition render (c : cell) : string :=
 
 (* pandas (modelled primitive): what Series.tolist() yields for a raw cell held
    in an `object` column resp. in a column of the native `str` dtype, which
-   stores every missing value as NaN *)
-Inductive pd_dtype := DObject | DStr.
+   stores every missing value as NaN, resp. of the `string` dtype, which stores it as pd.NA *)
+Inductive pd_dtype := DObject | DStr | DStringNA.   (* object, "str" (NaN-backed), "string" (pd.NA-backed) *)
 Definition series_cell (d : pd_dtype) (c : cell) : cell :=
   match d, c with
   | DStr, CStr s => CStr s
   | DStr, _ => CNaN
+  | DStringNA, CStr s => CStr s
+  | DStringNA, _ => CNA
   | DObject, c => c
   end.
 Definition series_tolist (d : pd_dtype) (raw : list cell) : list cell := map (series_cell d) raw.
